@@ -4,7 +4,7 @@ The top-level statements (whole tables) are decided by harness/c12.py and harnes
 from pyvc.contract import Contract, T
 from pyvc.speclib import implies, iff, fullmatch
 from ak import color as akc, ppobj
-from contracts.c08_chtext import plain, total, CHUNK   # noqa: spec functions of C08 reused
+from contracts.c08_chtext import (plain, total, offset, plain_upto, CHUNK, ANYCHUNKS, TEXT_MODELS)   # noqa: spec functions of C08 reused
 
 PROP = 'C12'
 M = 'ak.color'
@@ -40,7 +40,56 @@ CHUNKS = T.one_of(*[T.list(*[CHUNK() for _ in range(n)]) for n in range(3)])
 CELLS = T.one_of(T.list(), T.list(T.list(CHUNK())), T.list(T.list(CHUNK()), T.list()),
                  T.list(T.list(CHUNK(), CHUNK()), T.list(CHUNK()), T.list(CHUNK())))
 
+def _resized_result(bound):
+    """at a call site the result is the argument itself or a new list (the post-condition `alias` says when)"""
+    def mk(I, name):
+        if I.branch(I.st.fresh_bool(name + '.same_list')):
+            return bound['chunks']
+        return ANYCHUNKS().make(I, name)
+    return T.custom('the argument itself or a new list', mk)
+
+
 CONTRACTS = [
+    # chunk lists of ANY length (loop invariant over the truncation walk)
+    Contract(M, 'CHText.resize_chunks_list', name='CHText.resize_chunks_list/any_length', prop=PROP, spec_globals=G, level='sup',
+             params={'cls': T.cls('ak.color:CHText'), 'chunks': ANYCHUNKS(), 'new_len': T.nat},
+             ensures={
+                 'len': "total(result) == new_len",
+                 'text': "plain(result) == (plain(chunks)[:new_len] if new_len <= total(chunks) "
+                         "else plain(chunks) + ' ' * (new_len - total(chunks)))",
+                 'alias': "(result is chunks) == (total(chunks) == new_len)",
+             },
+             result_spec=_resized_result,
+             invariants={0: {'inv': "remaining_len >= 0 and remaining_len == new_len - total(result) "
+                                    "and plain(result) == plain_upto(chunks, __i)[:new_len] "
+                                    "and (remaining_len == 0 or total(result) == offset(chunks, __i))",
+                             'havoc': {'result': ANYCHUNKS()}}},
+             symlist_models=TEXT_MODELS, raises={}, modifies=[]),
+    Contract(MP, 'FieldType.fit_to_width', name='FieldType.fit_to_width/fits/any_length', prop=PROP, spec_globals=G, level='top',
+             params={'ch_chunks': ANYCHUNKS(), 'width': T.nat,
+                     'align': T.one_of(T.const(ALIGN_LEFT), T.const(ALIGN_CENTER), T.const(ALIGN_RIGHT)),
+                     'cp': T.obj(ME + ':StubPalette')},
+             requires=["total(ch_chunks) <= width"],
+             ensures={
+                 'exact_width': "total(result) == width",
+                 'left': "align != ALIGN_LEFT or plain(result) == plain(ch_chunks) + ' ' * (width - total(ch_chunks))",
+                 'right': "align != ALIGN_RIGHT or plain(result) == ' ' * (width - total(ch_chunks)) + plain(ch_chunks)",
+                 'center': "align != ALIGN_CENTER or plain(result) == ' ' * ((width - total(ch_chunks)) // 2) + plain(ch_chunks) "
+                           "+ ' ' * (width - total(ch_chunks) - (width - total(ch_chunks)) // 2)",
+             },
+             symlist_models=TEXT_MODELS, raises={}, modifies=[]),
+    Contract(MP, 'FieldType.fit_to_width', name='FieldType.fit_to_width/truncates/any_length', prop=PROP, spec_globals=G,
+             level='top',
+             params={'ch_chunks': ANYCHUNKS(), 'width': T.nat,
+                     'align': T.one_of(T.const(ALIGN_LEFT), T.const(ALIGN_CENTER), T.const(ALIGN_RIGHT)),
+                     'cp': T.obj(ME + ':StubPalette')},
+             requires=["total(ch_chunks) > width"],
+             ensures={
+                 'exact_width': "total(result) == width",
+                 'prefix_then_dots': "plain(result) == plain(ch_chunks)[:width - dots(width)] + '.' * dots(width)",
+                 'argument_untouched': "result is not ch_chunks",
+             },
+             symlist_models=TEXT_MODELS, raises={}, modifies=[]),
     Contract(M, 'CHText.resize_chunks_list', prop=PROP, spec_globals=G, level='sup',
              params={'cls': T.cls('ak.color:CHText'), 'chunks': CHUNKS, 'new_len': T.nat},
              ensures={
@@ -90,9 +139,30 @@ CONTRACTS = [
 
 BOUNDED_SYMBOLIC = {'CHText.resize_chunks_list': 2, 'FieldType.fit_to_width/fits': 2, 'FieldType.fit_to_width/truncates': 2,
                     '_PPTableImpl._make_table_line': 3}
-USES = {}
+USES = {'FieldType.fit_to_width/truncates/any_length': ['CHText.resize_chunks_list/any_length']}
 ASSUMED_LIBRARY = []
 CANARIES = [
+    {'name': 'anylen_truncation_keeps_one_char_too_many', 'module': MP, 'function': 'FieldType.fit_to_width',
+     'verify': 'FieldType.fit_to_width/truncates/any_length',
+     'old': 'visible_text_len = width - dots_len', 'new': 'visible_text_len = width - dots_len + 1',
+     'combos': ['const(1)'], 'unproved_is_enough': True, 'expect': 'C12.FieldType.fit_to_width/truncates/any_length.exact_width'},
+    {'name': 'anylen_center_pads_right_first', 'module': MP, 'function': 'FieldType.fit_to_width',
+     'verify': 'FieldType.fit_to_width/fits/any_length',
+     'old': 'left_filer_len = filler_len // 2', 'new': 'left_filer_len = filler_len - filler_len // 2',
+     'combos': ['const(2)'], 'unproved_is_enough': True, 'expect': 'C12.FieldType.fit_to_width/fits/any_length.center'},
+    {'name': 'anylen_resize_keeps_one_char_too_many', 'module': M, 'function': 'CHText.resize_chunks_list',
+     'verify': 'CHText.resize_chunks_list/any_length',
+     'old': 'result.append(item.clone(item.text[:remaining_len]))', 'new': 'result.append(item.clone(item.text[:remaining_len + 1]))',
+     'unproved_is_enough': True, 'expect': 'C12.CHText.resize_chunks_list/any_length.loop0.inv_preserved'},
+    {'name': 'anylen_resize_pads_one_short', 'module': M, 'function': 'CHText.resize_chunks_list',
+     'verify': 'CHText.resize_chunks_list/any_length',
+     'old': 'return chunks + [cls.Chunk.make_plain(" "*(new_len - existing_len))]',
+     'new': 'return chunks + [cls.Chunk.make_plain(" "*(new_len - existing_len - 1))]',
+     'unproved_is_enough': True, 'expect': 'C12.CHText.resize_chunks_list/any_length.len'},
+    {'name': 'anylen_resize_forgets_to_count', 'module': M, 'function': 'CHText.resize_chunks_list',
+     'verify': 'CHText.resize_chunks_list/any_length',
+     'old': 'remaining_len -= cur_item_len', 'new': 'remaining_len -= 0',
+     'unproved_is_enough': True, 'expect': 'C12.CHText.resize_chunks_list/any_length.loop0.inv_preserved'},
     {'name': 'truncation_keeps_one_char_too_many', 'module': MP, 'function': 'FieldType.fit_to_width',
      'verify': 'FieldType.fit_to_width/truncates',
      'old': 'visible_text_len = width - dots_len', 'new': 'visible_text_len = width - dots_len + 1',
